@@ -262,6 +262,7 @@ func HarnessC04Events() {
 		attrs        int
 		droppedAttrs int
 		first        int64
+		user         int // how many of the offered attributes are the caller's
 	}
 	var model []ev
 	dropped := 0
@@ -274,12 +275,20 @@ func HarnessC04Events() {
 		for j := 0; j < na; j++ {
 			as = append(as, attribute.Int64("k", first+int64(j)))
 		}
-		s.AddEvent(names[i], trace.WithAttributes(as...))
-		e := ev{name: names[i], attrs: na, first: first}
+		// an ordinary event, or an error recorded as an "exception" event whose
+		// exception.type / exception.message attributes follow the caller's and
+		// count against the same per-event cap
+		e := ev{name: names[i], attrs: na, first: first, user: na}
+		if vndChoice(2) == 1 {
+			s.RecordError(errC04{}, trace.WithAttributes(as...))
+			e.name, e.attrs = "exception", na+2
+		} else {
+			s.AddEvent(names[i], trace.WithAttributes(as...))
+		}
 		if l := limits.AttributePerEventCountLimit; l == 0 {
-			e.droppedAttrs, e.attrs = na, 0
-		} else if l > 0 && na > l {
-			e.droppedAttrs, e.attrs = na-l, l
+			e.droppedAttrs, e.attrs = e.attrs, 0
+		} else if l > 0 && e.attrs > l {
+			e.droppedAttrs, e.attrs = e.attrs-l, l
 		}
 		switch c := limits.EventCountLimit; {
 		case c == 0:
@@ -309,7 +318,9 @@ func HarnessC04Events() {
 		vndAssert(len(got[i].Attributes) == model[i].attrs, "per-event-attribute-cap")
 		vndAssert(got[i].DroppedAttributeCount == model[i].droppedAttrs, "per-event-dropped-attribute-count")
 		for j := range got[i].Attributes {
-			vndAssert(got[i].Attributes[j].Value.AsInt64() == model[i].first+int64(j), "per-event-attributes-keep-first")
+			if j < model[i].user {
+				vndAssert(got[i].Attributes[j].Value.AsInt64() == model[i].first+int64(j), "per-event-attributes-keep-first")
+			}
 		}
 	}
 }
